@@ -72,6 +72,10 @@ class MADisjunctiveConditionsRemover(DisjunctiveConditionsRemover):
         problem_kind: ProblemKind, compilation_kind: Optional[CompilationKind] = None
     ) -> ProblemKind:
         new_kind = problem_kind.clone()
+        if new_kind.has_disjunctive_conditions():
+            # implications and equivalences count as disjunctive conditions and their
+            # disjunctive normal form contains negations
+            new_kind.set_conditions_kind("NEGATIVE_CONDITIONS")
         new_kind.unset_conditions_kind("DISJUNCTIVE_CONDITIONS")
         return new_kind
 
